@@ -55,6 +55,7 @@ structure Dict where
   cb : Option Raw := none
   rot : Option Raw := none
   contents : Bool := false
+  contentsRef : Option Nat := none   -- target of /Contents (used by the C16 model only)
   deriving Repr, DecidableEq, Inhabited
 
 def Dict.attr (d : Dict) : Key → Option Raw
@@ -68,7 +69,7 @@ inductive Obj where
   | arr (es : List Elem)     -- array of references / junk
   | raw (r : Raw)            -- integer, number array, plain dictionary, …
   | null
-  | stream                   -- stream whose dictionary has only /Length
+  | stream (hex : String)    -- stream whose dictionary has only /Length; data as hex text
   deriving Repr, DecidableEq, Inhabited
 
 abbrev Graph := List (Nat × Obj)
@@ -83,7 +84,7 @@ def Graph.ids (g : Graph) : List Nat := g.map (·.1)
 /-- `PdfObject::as_dict` (a stream yields its dictionary). -/
 def Obj.asDict : Obj → Option Dict
   | .dict d => some d
-  | .stream => some {}
+  | .stream _ => some {}
   | .raw (.keys _) => some {}
   | _ => none
 
@@ -233,7 +234,7 @@ def dictKeys (d : Dict) : List String :=
 
 def objKeys : Obj → Option (List String)
   | .dict d => some (dictKeys d)
-  | .stream => some ["Length"]
+  | .stream _ => some ["Length"]
   | .raw (.keys ks) => some ks
   | _ => none
 
